@@ -240,6 +240,10 @@ def bounded_runtime_kinds(tier, seed):
            C.op("/color", "get", "getColor", ["k"], responses={"200": C.resp_json(R("Color")), "201": C.resp_json(R("Color"))}),
            C.op("/priority", "get", "getPriority", ["k"], responses={"200": C.resp_json(R("Priority"))}),
            C.op("/colors", "get", "listColors", ["k"], responses={"200": C.resp_json({"type": "array", "items": R("Color")})}),
+           # formatted strings as the whole body: the annotated return type is the Python type of the format
+           C.op("/when", "get", "getWhen", ["k"], responses={"200": C.resp_json(P["datetime"])}),
+           C.op("/day", "get", "getDay", ["k"], responses={"200": C.resp_json(P["date"])}),
+           C.op("/ident", "get", "getIdent", ["k"], responses={"200": C.resp_json(P["uuid"])}),
            # several JSON-family media types with DIFFERENT schemas on one response: the Content-Type of the answer selects the schema
            C.op("/report", "get", "getReport", ["k"], responses={"200": {"description": "ok", "content": {
                "application/json": {"schema": R("Full")}, "application/vnd.acme.summary+json": {"schema": R("Summary")}, "application/vnd.acme.v2+json": {"schema": R("Full")}}}}),
@@ -255,6 +259,7 @@ def bounded_runtime_kinds(tier, seed):
              ("list_animals", 200, [bird, dog, cat], None), ("get_zoo", 200, {"star": dog, "all": [cat, bird], "byName": {"x": bird, "y": dog}, "tint": ""}, "Zoo"),
              ("map_pets", 200, {"a": pet}, None), ("get_color", 200, "dark-green", "Color"), ("get_color", 200, "", "Color"), ("get_color", 201, "red", "Color"),
              ("get_priority", 200, 0, "Priority"), ("get_priority", 200, 2, "Priority"), ("list_colors", 200, ["red", ""], None),
+             ("get_when", 200, "2024-01-02T03:04:05+00:00", "datetime"), ("get_day", 200, "2024-01-02", "date"), ("get_ident", 200, "12345678-1234-5678-1234-567812345678", "UUID"),
              ("get_report", 200, {"title": "t", "rows": [1, 0]}, "Full", "application/json"), ("get_report", 200, {"total": 0, "note": "n"}, "Summary", "application/vnd.acme.summary+json"),
              ("get_report", 200, {"title": "t2", "rows": []}, "Full", "application/vnd.acme.v2+json; charset=utf-8"), ("get_count", 200, 0, None),
              ("get_flag", 200, False, None), ("get_text", 200, "", None)]
@@ -308,7 +313,7 @@ def bounded_runtime_kinds(tier, seed):
             failures.append({"id": "bounded:runtime-kinds:harness", "detail": out[-500:], "input": {}})
         else:
             for meth, sc, body, why in json.loads(line[7:]):
-                kind = "union" if "animal" in meth or "zoo" in meth else ("media-type" if meth == "get_report" else "scalar-or-container")
+                kind = "union" if "animal" in meth or "zoo" in meth else ("media-type" if meth == "get_report" else ("formatted-leaf" if meth in ("get_when", "get_day", "get_ident") else "scalar-or-container"))
                 failures.append({"id": f"bounded:runtime-kinds:{meth}:{kind}:{(body.get('petType') if isinstance(body, dict) else type(body).__name__)}",
                                  "detail": f"{meth} answering {sc} with {json.dumps(body)[:160]}: {why}"[:500], "input": {"method": meth, "status": sc, "body": body}})
     finally:
@@ -336,6 +341,24 @@ def _wk(sub):
 
 
 WITNESS.update({"F-C05-ndjson-decoded-as-sse": _wk(":ndjson-as-sse"), "F-C05-secondary-binary-as-json": _wk(":bytes-as-json")})
+
+
+def _witness_top_level_date(k):
+    """generate a client for one operation returning a date-time string and look at the emitted handler: it casts instead of structuring"""
+    import shutil
+    from props import corpus as C, gen_harness as G
+    d = C.doc("W", [C.op("/when", "get", "getWhen", ["w"], responses={"200": C.resp_json(C.PRIMS["datetime"])})])
+    root = G.scratch("c05w")
+    try:
+        if G.generate(d, root, "cli") is not None:
+            return None
+        src = open(os.path.join(root, "cli", "endpoints", "w.py"), encoding="utf-8").read()
+        return "-> datetime" in src and "cast(datetime, response.json())" in src
+    finally:
+        shutil.rmtree(root, ignore_errors=True)
+
+
+WITNESS["F-C05-top-level-date-returned-as-text"] = _witness_top_level_date
 
 
 def bounded_streams(tier, seed):
